@@ -1068,6 +1068,26 @@ class Interp:
             return args[0][1] if isinstance(args[0], tuple) and args[0] and args[0][0] == 'weak' else args[0]
         if isinstance(fn, ast.Name) and fn.id == 'super':
             return ('super',)
+        if isinstance(fn, ast.Attribute) and fn.attr == 'update' and len(args) <= 1:
+            base = self.ev(fn.value, env, cls)
+            if isinstance(base, Ref) and h.objs[base.name]['__class__'] == 'dict':
+                # d.update(mapping or iterable of pairs, **kw): the pairs in order, later ones replace
+                if args:
+                    src_ = args[0]
+                    if isinstance(src_, Ref) and h.objs[src_.name]['__class__'] == 'dict':
+                        pairs_ = list(h.objs[src_.name]['entries'])
+                    else:
+                        pairs_ = []
+                        for it_ in self.seq(src_):
+                            kv_ = self.seq(it_)
+                            if len(kv_) != 2:
+                                raise Raised('ValueError', h.version, e.lineno)
+                            pairs_.append((kv_[0], kv_[1]))
+                    for k_, v_ in pairs_:
+                        h.dict_set(base, k_, v_)
+                for k_, v_ in kwargs.items():
+                    h.dict_set(base, k_, v_)
+                return None
         if isinstance(fn, ast.Attribute) and fn.attr in ('get', 'pop', 'setdefault'):
             base = self.ev(fn.value, env, cls)
             if isinstance(base, Ref) and h.objs[base.name]['__class__'] == 'dict':
@@ -1241,6 +1261,11 @@ class Interp:
             hk = h.hooks.get('regex:%s.%s' % (rxv[1].split('.')[-1], meth)) or h.hooks.get('regex:%s.%s' % (rxv[1].split('.')[-1].lstrip('_'), meth))
             if hk is not None:
                 return hk(self, list(args), kwargs)
+            if getattr(h, 'native_regex', False) and meth in ('search', 'match', 'fullmatch') and args \
+                    and all(isinstance(a_, (str, int)) or (isinstance(a_, SStr) and a_.concrete() is not None) for a_ in args):
+                # decided text under a heap that lets CPython's regex engine decide: the Match object itself (groups are read later)
+                import re as _re
+                return getattr(_re.compile(rxv[2], rxv[3]), meth)(*[a_.concrete() if isinstance(a_, SStr) else a_ for a_ in args], **kwargs)
             if meth in ('search', 'match', 'fullmatch') and args and isinstance(args[0], (str, SStr)):
                 ok = symstr.regex_test(rxv[2], rxv[3], meth, args[0])
                 return ('matchobj', rxv[1]) if ok else None
